@@ -45,6 +45,50 @@ func bigFrom(r *gen.R) *big.Int {
 	}
 }
 
+// mulPair: factors whose bit lengths add up to 255, 256 or 257 — the window in which the
+// product's own bit length (254..257 bits) decides between a value and an overflow and in
+// which BigInt.Mul's up-front bound BitLen(a)+BitLen(b)-1 is not decisive: all-ones factors
+// (product just below 2^(la+lb)), powers of two (product exactly 2^(la+lb-2)), and random
+// factors of those lengths, with random signs.
+func mulPair(r *gen.R) (*big.Int, *big.Int) {
+	la := 1 + r.Intn(255)
+	lb := 255 + r.Intn(3) - la
+	if lb < 1 {
+		lb = 1
+	}
+	mk := func(l int) *big.Int {
+		top := new(big.Int).Lsh(big.NewInt(1), uint(l-1)) // 2^(l-1): smallest l-bit number
+		switch r.Intn(4) {
+		case 0: // all ones: 2^l - 1 - small
+			x := new(big.Int).Sub(new(big.Int).Lsh(big.NewInt(1), uint(l)), big.NewInt(int64(1+r.Intn(3))))
+			if x.Sign() <= 0 {
+				return big.NewInt(1)
+			}
+			return x
+		case 1: // power of two (+ small)
+			return new(big.Int).Add(top, big.NewInt(int64(r.Intn(2))))
+		case 2: // around sqrt(2)*2^(l-1): products of two such factors straddle 2^(la+lb-1)
+			x := new(big.Int).Mul(top, big.NewInt(int64(1414+r.Intn(3)-1)))
+			return x.Quo(x, big.NewInt(1000))
+		default:
+			x := new(big.Int).SetBytes(r.Bytes((l + 7) / 8))
+			x.SetBit(x, l-1, 1)
+			for x.BitLen() > l {
+				x.SetBit(x, x.BitLen()-1, 0)
+			}
+			return x
+		}
+	}
+	a, b := mk(la), mk(lb)
+	if r.Chance(1, 3) {
+		a.Neg(a)
+	}
+	if r.Chance(1, 3) {
+		b.Neg(b)
+	}
+	return a, b
+}
+
 func mkInt(b *big.Int) sdk.BigInt { return sdk.NewIntFromBigInt(new(big.Int).Set(b)) }
 
 // genCoins: mostly sorted valid sets; sometimes zero/negative amounts; malformed (unsorted /
@@ -220,7 +264,10 @@ func main() {
 			t.Line("gte", len(a) > 0 && len(b) > 0, "gte %s %s => %s", renderIn(a), renderIn(b), res)
 		case k < 14:
 			x, y := bigFrom(r), bigFrom(r)
-			op := r.Pick([]string{"iadd", "isub", "imul", "iquo", "imod"})
+			op := r.Pick([]string{"iadd", "isub", "imul", "imul", "iquo", "imod"})
+			if op == "imul" && r.Chance(2, 3) {
+				x, y = mulPair(r)
+			}
 			res := try(func() string {
 				a, b := mkInt(x), mkInt(y)
 				switch op {
